@@ -123,6 +123,10 @@ func (fip *FloatingIPPool) UnmarshalJSON(data []byte) error {
 	} else {
 		m := map[string]string{}
 		for i := range conf.NodeSubnets {
+			if conf.NodeSubnets[i] == nil {
+				// "nodeSubnets":[null] decodes to a nil entry
+				return fmt.Errorf("node subnet %d is null", i)
+			}
 			ipNet := conf.NodeSubnets[i].ToIPNet()
 			ipNet.IP = ipNet.IP.Mask(ipNet.Mask)
 			if _, ok := m[ipNet.String()]; !ok {
